@@ -195,7 +195,12 @@ class ArgparseRunner:
             self._stdout_lister(self._generator.generate_all(is_dryrun=True), str)
 
         if self._should_generate_support():
-            self._stdout_lister(self._support_generator.generate_all(is_dryrun=True), str)
+            self._stdout_lister(
+                self._support_generator.generate_all(
+                    is_dryrun=True, omit_serialization_support=self._args.omit_serialization_support
+                ),
+                str,
+            )
 
     def _list_inputs_only(self) -> None:
         if self._args.generate_support != "only":
